@@ -119,6 +119,11 @@ def run(chk, prog):
             chk.check(ok, "R2", A.loc(pf, x), "parse() clears %s only to normalise the documented '/dev/null' spelling of 'none'" % fld,
                       "parse:clear:%s" % fld)
     chk.ok("R2", pf.where, "writers of _vm and of bound fields enumerated over all ProgramOptions methods")
+    _, muts = O.vm_mutations(prog)
+    A.require(len(muts) >= 3, "parse: changes of the variables map not found")
+    for n, ok in muts:
+        chk.check(ok, "R2", A.loc(pf, n), "the change of the variables map `%s` is followed by notify() on every path before parse() returns true "
+                  "(otherwise the bound field keeps its old value)" % A.show(n)[:70].replace("\n", " "), "parse:unnotified:%s" % A.show(n)[:50].replace(" ", ""))
 
     # ---- R3: aliases ---------------------------------------------------------------------------------
     n3 = 0
@@ -188,6 +193,19 @@ def run(chk, prog):
             chk.check(f.field == o.field and f.vtype == o.vtype, "R5", "src/IO/ProgramOptions.cpp:%d" % o.line,
                       "'%s': command-line and config-file declarations bind the same field and type" % name, "options:%s:cli-file-mismatch" % name)
             n5 += 1
+    KNOWN_MODIFIERS = {"zero_tokens", "required", "value_name"}
+    for name, o in sorted({**cli, **cfg}.items()):
+        if o.vtype is None:
+            continue
+        site = "src/IO/ProgramOptions.cpp:%d" % o.line
+        if name in cli and name in cfg:
+            chk.check(not o.composing and not cfg[name].composing, "R5", site,
+                      "'%s' is not composing(): a command-line value replaces the config-file value instead of being merged with it" % name,
+                      "options:%s:composing" % name)
+            n5 += 1
+        chk.check(not o.other_modifiers or set(o.other_modifiers) <= KNOWN_MODIFIERS, "R5", site,
+                  "'%s' uses only value-semantic modifiers whose effect on precedence is modelled (%s)" % (name, o.other_modifiers),
+                  "options:%s:modifiers:%s" % (name, o.other_modifiers))
     byfield = {}
     for name, o in cfg.items():
         if name in alias or name in ignore or o.field is None:
